@@ -7,7 +7,11 @@
     callback arguments and sizes, and concurrent invocation/response histories whose linearization points TLC
     searches (silent Lin steps, DFS queue, high-water mark).
 (B) stranded-consumer schedules: consumers observed parked in Get before each put; a Get that does not return
-    is a watchdog Timeout event the specification has no action for."""
+    is a watchdog Timeout event the specification has no action for.
+(C) callback-held schedules: a Failed/Overflowed callback blocks inside the queue's critical section while every
+    other operation is invoked; the invocation/response history is judged for linearizability like (A).
+Elements are put as struct values, pointers and nothing-like values (nil interface, typed nil pointer, zero values);
+the specification's element universe has such members (ReqQueue: VALUES, deviation NilSwallowed)."""
 import vf
 
 SAFETY = [  # (quick cfg, thorough cfg)
@@ -15,6 +19,8 @@ SAFETY = [  # (quick cfg, thorough cfg)
     ("MC_ReqQueue_double.cfg", "MC_ReqQueue_double_thorough.cfg"),
     ("MC_ReqQueue_timed.cfg", "MC_ReqQueue_timed_thorough.cfg"),
     ("MC_ReqQueue_admin.cfg", "MC_ReqQueue_admin_thorough.cfg"),
+    # element universe with nothing-like members (nil interface value, another zero value), double queue, all three gets
+    ("MC_ReqQueue_nil.cfg", "MC_ReqQueue_nil_thorough.cfg"),
 ]
 
 
@@ -31,6 +37,9 @@ def body(run):
     run.extra["actions_never_taken_in_any_configuration"] = []
     run.mc("MC_ReqQueue", cfg="MC_ReqQueue_live_thorough.cfg" if th else "MC_ReqQueue_live.cfg", workers=w)
     run.mc("MC_ReqQueue", cfg="MC_ReqQueue_nobcast.cfg", expect_violation="NoLostWakeup", workers=1)
+    # the named deviation NilSwallowed (a timed get's poll reads a nil-valued element as "nothing yet") is reachable in
+    # the model: "no element is ever swallowed" is refuted, so the nil configurations are not vacuous
+    run.mc("MC_ReqQueue", cfg="MC_ReqQueue_nilreach.cfg", expect_violation="NoSwallowEver", workers=1)
 
     out, meta = run.drive("c11", timeout=2400)
     run.absorb(meta)
@@ -41,6 +50,7 @@ def body(run):
         run.selftest(out, meta, gen="self", dfs=True, field="size")
         run.selftest(out, meta, gen="strand", dfs=True, field="out", remove_match={"ev": "Inv", "o": "Put"})
         run.selftest(out, meta, gen="conc", dfs=True, field="ok", remove_match={"ev": "Inv"})
+        run.selftest(out, meta, gen="held", dfs=True, field="ok", remove_match={"ev": "Inv"})
     run.assumptions += [
         "elements are [producer, seq] pairs; results are projected by the harness with the Go standard library only",
         "the order of invocation/response events is the order of appends to one mutex-protected log (stamp before the call, stamp after the return); no wall-clock ordering across goroutines",
